@@ -1,8 +1,15 @@
-"""Discharge obligations: z3 (python API, one process per obligation from a pool); `unknown` goes to the
-cvc5 and z3 command-line solvers on the SMT-LIB export.  Exit statuses: proved / refuted / unknown."""
+"""Discharge obligations.  Every query is an SMT-LIB file handed to a solver *process* (z3 5.1 CLI = the z3-solver
+wheel's binary, z3 4.8.12, cvc5 1.0.3) under a hard wall-clock limit, 16 at a time: a crashing or hanging solver is an
+`unknown`, never a verdict and never a hang of the checker.
+
+Portfolio per obligation (first `unsat` wins; `sat` is only believed from the full-hypotheses z3 5.1 query):
+  phase 0  z3 5.1, E-matching only (mbqi off), full and stale-pruned hypotheses        (fast path for proofs)
+  phase 1  z3 5.1 default configuration, pruned then full hypotheses                    (also produces counter-models)
+  phase 2  z3 4.8.12 and cvc5 on what is still unknown
+"""
 from __future__ import annotations
 
-import multiprocessing as mp
+import concurrent.futures as cf
 import os
 import subprocess
 import tempfile
@@ -12,9 +19,13 @@ import z3
 
 from .types import str_distinct_axioms
 
-Z3_TIMEOUT_MS = int(os.environ.get("PYVC_Z3_TIMEOUT_MS", "20000"))
-EMATCH_TIMEOUT_MS = int(os.environ.get("PYVC_EMATCH_TIMEOUT_MS", "8000"))
+Z3_TIMEOUT_S = float(os.environ.get("PYVC_Z3_TIMEOUT_MS", "20000")) / 1000
+EMATCH_TIMEOUT_S = float(os.environ.get("PYVC_EMATCH_TIMEOUT_MS", "8000")) / 1000
 FALLBACK_TIMEOUT_S = int(os.environ.get("PYVC_FALLBACK_TIMEOUT_S", "60"))
+Z3NEW = "/usr/local/bin/z3-new"
+TMP = tempfile.mkdtemp(prefix="pyvc_smt_")
+import atexit, shutil  # noqa: E402
+atexit.register(lambda: shutil.rmtree(TMP, ignore_errors=True))
 
 
 def to_smt2(axioms, pc, goal) -> str:
@@ -27,61 +38,41 @@ def to_smt2(axioms, pc, goal) -> str:
     return s.to_smt2()
 
 
-def _work(job):
-    idx, smt2, timeout_ms, want_model = job[:4]
-    ematch_only = len(job) > 4 and job[4]
+def _run(cmd, path, timeout_s, want_model=False):
     t0 = time.time()
     try:
-        s = z3.Solver()
-        s.set("timeout", timeout_ms)
-        s.set("random_seed", 0)
-        if ematch_only:
-            s.set("mbqi", False)
-            s.set("auto_config", False)
-        s.from_string(smt2)
-        r = s.check()
-        model = None
-        if r == z3.sat and want_model:
-            try:
-                model = s.model().sexpr()
-            except Exception:
-                model = None
-        return idx, str(r), time.time() - t0, model, s.reason_unknown() if r == z3.unknown else ""
-    except Exception as e:  # solver crash is not a verdict
-        return idx, "error", time.time() - t0, None, repr(e)
-
-
-def _cli(cmd, smt2, timeout_s):
-    with tempfile.NamedTemporaryFile("w", suffix=".smt2", delete=False) as f:
-        f.write(smt2)
-        path = f.name
-    t0 = time.time()
-    try:
-        out = subprocess.run(cmd + [path], capture_output=True, text=True, timeout=timeout_s)
-        first = (out.stdout.strip().splitlines() or ["error"])[0].strip()
+        out = subprocess.run(cmd + [path], capture_output=True, text=True, timeout=timeout_s + 5)
+        lines = out.stdout.strip().splitlines()
+        first = lines[0].strip() if lines else "error"
         if first not in ("sat", "unsat", "unknown"):
-            first = "error"
-        return first, time.time() - t0
+            first = "unknown" if "timeout" in out.stdout else "error"
+        model = "\n".join(lines[1:]) if (want_model and first == "sat") else None
+        return first, time.time() - t0, model
     except subprocess.TimeoutExpired:
-        return "unknown", time.time() - t0
-    finally:
-        os.unlink(path)
+        return "unknown", time.time() - t0, None
+    except Exception:  # noqa: BLE001
+        return "error", time.time() - t0, None
 
 
-def _fallback(job):
-    idx, smt2 = job
-    res = []
-    # a different z3 build with different heuristics
-    r, t = _cli(["/usr/bin/z3", f"-T:{FALLBACK_TIMEOUT_S}"], smt2, FALLBACK_TIMEOUT_S + 5)
-    res.append(("z3-4.8.12", r, t))
-    if r not in ("sat", "unsat"):
-        r2, t2 = _cli(["/usr/bin/cvc5", "--strings-exp", f"--tlimit={FALLBACK_TIMEOUT_S * 1000}"], smt2, FALLBACK_TIMEOUT_S + 5)
-        res.append(("cvc5-1.0.3", r2, t2))
-    return idx, res
+def _job(job):
+    idx, kind, path, timeout_s = job
+    T = f"-T:{max(1, int(timeout_s))}"
+    if kind == "ematch":
+        r = _run([Z3NEW, T, "smt.mbqi=false", "auto_config=false", "smt.random_seed=0"], path, timeout_s)
+    elif kind == "z3":
+        r = _run([Z3NEW, T, "smt.random_seed=0"], path, timeout_s)
+    elif kind == "z3model":
+        r = _run([Z3NEW, T, "smt.random_seed=0", "dump_models=true"], path, timeout_s, want_model=True)
+    elif kind == "z3old":
+        r = _run(["/usr/bin/z3", T], path, timeout_s)
+    elif kind == "cvc5":
+        r = _run(["/usr/bin/cvc5", "--strings-exp", f"--tlimit={int(timeout_s * 1000)}"], path, timeout_s)
+    else:
+        r = ("error", 0.0, None)
+    return idx, kind, r
 
 
 def _heap_syms(x, cache):
-    """Names of heap-array constants (H<version>!Class.field.i) occurring in x."""
     k = x.get_id()
     if k in cache:
         return cache[k]
@@ -113,10 +104,12 @@ def _has_quant(x, cache):
 
 
 def prune(pc, goal, cache):
-    """Sound weakening of the hypotheses: drop quantified hypotheses that speak only about heap versions the goal
-    does not mention (stale copies of an invariant in earlier states).  Fewer hypotheses can only lose proofs."""
+    """Sound weakening of the hypotheses: drop quantified hypotheses that speak only about older versions of heap
+    fields the goal reads in a newer version (stale copies of an invariant).  Fewer hypotheses can only lose proofs."""
     g = _heap_syms(goal, cache)
-    key = lambda n: n.split("!")[-1]
+
+    def key(n):
+        return n.split("!")[-1]
     gnew = {n for n in g if not n.startswith("H0!")}
     if not gnew:
         return None
@@ -125,8 +118,6 @@ def prune(pc, goal, cache):
     for c in pc:
         if _has_quant(c, cache):
             h = _heap_syms(c, cache)
-            # stale: talks about an older version of some field the goal reads in a newer version, and about none
-            # of the goal's newer versions
             if h and not (h & gnew) and any(key(n) in gkeys for n in h):
                 dropped += 1
                 continue
@@ -134,80 +125,94 @@ def prune(pc, goal, cache):
     return keep if dropped else None
 
 
+def _write(name, text):
+    path = os.path.join(TMP, name)
+    with open(path, "w") as f:
+        f.write(text)
+    return path
+
+
 def discharge(engine, obligations, procs=None, want_models=True, log=None):
     procs = procs or min(16, os.cpu_count() or 4)
     axioms = list(engine.axioms) + str_distinct_axioms()
-    jobs, pre_jobs = [], []
     cache = {}
-    for i, ob in enumerate(obligations):
-        if ob.status is not None:
-            continue
-        ob.smt2 = to_smt2(axioms, ob.pc, ob.goal)
-        jobs.append((i, ob.smt2, Z3_TIMEOUT_MS, want_models))
-        pr = prune(ob.pc, ob.goal, cache)
-        # phase 0 portfolio (only `unsat` is used): E-matching only (no MBQI) on the full and on the pruned hypotheses
-        pre_jobs.append((i, ob.smt2, EMATCH_TIMEOUT_MS, False, True))
-        if pr is not None:
-            psmt = to_smt2(axioms, pr, ob.goal)
-            pre_jobs.append((i, psmt, EMATCH_TIMEOUT_MS, False, True))
-            pre_jobs.append((i, psmt, Z3_TIMEOUT_MS, False, False))
-    if not jobs:
+    todo = [i for i, ob in enumerate(obligations) if ob.status is None]
+    if not todo:
         return
-    ctx = mp.get_context("fork")
-    with ctx.Pool(procs) as pool:
-        # phase 0: pruned-hypotheses variant (only `unsat` is used from it)
-        done = set()
-        for idx, r, t, model, why in pool.imap_unordered(_work, pre_jobs, chunksize=1):
-            ob = obligations[idx]
-            if idx in done:
-                continue
-            ob.time += t
-            if r == "unsat":
-                ob.status, ob.backend = "proved", "z3-5.1 (e-matching / pruned hypotheses)"
-                done.add(idx)
-        jobs = [j for j in jobs if j[0] not in done]
-        for idx, r, t, model, why in pool.imap_unordered(_work, jobs, chunksize=1):
-            ob = obligations[idx]
-            ob.time += t
-            ob.backend = "z3-5.1"
-            if r == "unsat":
-                ob.status = "proved"
-            elif r == "sat":
-                ob.status = "refuted"
-                ob.model = model
-            else:
-                ob.status = "unknown"
-                ob.why = why
-        pending = [(i, obligations[i].smt2) for i, ob in enumerate(obligations) if ob.status == "unknown"]
-        if pending:
-            for idx, res in pool.imap_unordered(_fallback, pending, chunksize=1):
-                ob = obligations[idx]
-                for backend, r, t in res:
-                    ob.time += t
-                    if r == "unsat":
-                        ob.status, ob.backend = "proved", backend
-                        break
-                    if r == "sat":
-                        # a `sat` from a fallback solver on quantified input is a candidate only: keep unknown
-                        # unless z3 itself produced the model; finite-scope refutation decides
-                        ob.status, ob.backend = "unknown", backend + ":sat-candidate"
-    for ob in obligations:
-        if hasattr(ob, "smt2") and ob.status == "proved":
+    full, pruned = {}, {}
+    for i in todo:
+        ob = obligations[i]
+        ob.smt2 = to_smt2(axioms, ob.pc, ob.goal)
+        full[i] = _write(f"ob{i}.smt2", ob.smt2)
+        pr = prune(ob.pc, ob.goal, cache)
+        if pr is not None:
+            pruned[i] = _write(f"ob{i}p.smt2", to_smt2(axioms, pr, ob.goal))
+
+    def run_phase(jobs, on_result):
+        with cf.ThreadPoolExecutor(max_workers=procs) as ex:
+            for idx, kind, (r, t, model) in ex.map(_job, jobs):
+                on_result(idx, kind, r, t, model)
+
+    open_ = set(todo)
+
+    def proved(idx, backend):
+        ob = obligations[idx]
+        if ob.status != "proved":
+            ob.status, ob.backend = "proved", backend
+        open_.discard(idx)
+
+    def res0(idx, kind, r, t, model):
+        obligations[idx].time += t
+        if r == "unsat":
+            proved(idx, "z3-5.1 e-matching")
+    jobs = []
+    for i in todo:
+        jobs.append((i, "ematch", full[i], EMATCH_TIMEOUT_S))
+        if i in pruned:
+            jobs.append((i, "ematch", pruned[i], EMATCH_TIMEOUT_S))
+    run_phase(jobs, res0)
+
+    def res1(idx, kind, r, t, model):
+        obligations[idx].time += t
+        if r == "unsat":
+            proved(idx, "z3-5.1 (pruned hypotheses)")
+    run_phase([(i, "z3", pruned[i], Z3_TIMEOUT_S) for i in sorted(open_) if i in pruned], res1)
+
+    def res2(idx, kind, r, t, model):
+        ob = obligations[idx]
+        ob.time += t
+        if r == "unsat":
+            proved(idx, "z3-5.1")
+        elif r == "sat" and ob.status != "proved":
+            ob.status, ob.backend, ob.model = "refuted", "z3-5.1", model
+            open_.discard(idx)
+    run_phase([(i, "z3model", full[i], Z3_TIMEOUT_S) for i in sorted(open_)], res2)
+
+    def res3(idx, kind, r, t, model):
+        ob = obligations[idx]
+        ob.time += t
+        if r == "unsat":
+            proved(idx, {"z3old": "z3-4.8.12", "cvc5": "cvc5-1.0.3"}[kind])
+        elif r == "sat" and ob.status is None:
+            ob.backend = {"z3old": "z3-4.8.12", "cvc5": "cvc5-1.0.3"}[kind] + ":sat-candidate"
+    jobs = []
+    for i in sorted(open_):
+        jobs.append((i, "z3old", full[i], FALLBACK_TIMEOUT_S))
+        jobs.append((i, "cvc5", full[i], FALLBACK_TIMEOUT_S))
+    run_phase(jobs, res3)
+    for i in todo:
+        ob = obligations[i]
+        if ob.status is None:
+            ob.status = "unknown"
+            ob.backend = ob.backend or "z3-5.1"
+        if ob.status == "proved" and hasattr(ob, "smt2"):
             del ob.smt2
+        for pth in (full.get(i), pruned.get(i)):
+            if pth and os.path.exists(pth):
+                os.unlink(pth)
 
 
-def _cover(job):
-    idx, smt2, timeout_ms = job
-    try:
-        s = z3.Solver()
-        s.set("timeout", timeout_ms)
-        s.from_string(smt2)
-        return idx, str(s.check())
-    except Exception:
-        return idx, "unknown"
-
-
-def cover_check(engine, procs=None, timeout_ms=3000):
+def cover_check(engine, procs=None, timeout_s=3):
     """Anti-vacuity: the path condition at every path end must not be refutable.  Returns per target the set of
     (function, line) reached on some path end that is not provably infeasible, and the count of infeasible ends."""
     procs = procs or min(16, os.cpu_count() or 4)
@@ -219,13 +224,14 @@ def cover_check(engine, procs=None, timeout_ms=3000):
             sol.add(a)
         for c in pc:
             sol.add(c)
-        jobs.append((i, sol.to_smt2(), timeout_ms))
+        jobs.append((i, "z3", _write(f"cov{i}.smt2", sol.to_smt2()), timeout_s))
     res = {}
-    if jobs:
-        ctx = mp.get_context("fork")
-        with ctx.Pool(procs) as pool:
-            for idx, r in pool.imap_unordered(_cover, jobs, chunksize=2):
-                res[idx] = r
+    with cf.ThreadPoolExecutor(max_workers=procs) as ex:
+        for idx, kind, (r, t, model) in ex.map(_job, jobs):
+            res[idx] = r
+    for j in jobs:
+        if os.path.exists(j[2]):
+            os.unlink(j[2])
     out = {}
     for i, (tname, pc, stmts, what) in enumerate(engine.terminals):
         d = out.setdefault(tname, {"reached": set(), "ends": 0, "infeasible_ends": 0, "sat_ends": 0, "normal_reachable": False})
